@@ -137,6 +137,28 @@ CLAIMED = {
         "Trusted: TLC, the logging shim, FNV digests for result identity. This check found the swallowed inner-gridDisk "
         "failure in areNeighborCells / polygonToCells (fixed in /repo commit 0aae22c7, see known_findings.json).",
         "DESIGN.md 3.10, 5/C17"),
+    "C19": (
+        "TLC: integer face-lattice model over complete grids (r<=2/3) + TLC trace validation of getIcosahedronFaces against Faces(h) and nearest-face witnesses",
+        "H3FaceIJK.tla transcribes the face lattice (index <-> FaceIJK with overage, substrate vertices, the Class II "
+        "pentagon redirection); TLC explores every cell of r<=2 (thorough r<=3) and checks |Faces| = 5 for pentagons and "
+        "1-2 for hexagons, together with the integer round trip and lattice-adjacency = graph-adjacency that validate the "
+        "transcription independently. Every cell of the model graph r<=2 and pentagon disks / all sampled cells along the "
+        "30 icosahedron edges and their neighbours / random cells at r=0..15 are validated by TLC: slot count = "
+        "maxFaceCount (2/5), distinct values 0..19 with -1 padding, reported set = Faces(h), and the geometric "
+        "cross-observation (nearest face of interior sample points) in both directions.",
+        "Trusted: TLC, the transcription, frozen tables and face centres; the nearest-face observation is a numeric "
+        "projection with an ambiguity band of 1e-9.",
+        "DESIGN.md 3.6, 5/C19"),
+    "C03": (
+        "TLC: cell counts by whole-resolution state-space exploration + integer round trip on the face lattice + TLC trace validation of centre round trips and enumerations",
+        "The number of cells reachable in the TLA+ neighbour graph equals 2+120*7^r for r<=4 (thorough 5) and the BigNat "
+        "count identity holds for all 16 resolutions; the integer core of the round trip FaceIjkToH3(H3ToFaceIjk(h)) = h "
+        "holds for every cell of r<=2 (3). Recorded latLngToCell(cellToLatLng(h)) = h events are validated for every cell "
+        "of r<=3 (thorough 5) with per-base-cell enumeration counts, pentagon disks, every cell along the 30 icosahedron "
+        "edges (dense walk) and their neighbours and random cells up to r=15; getNumCells / getPentagons / getRes0Cells / "
+        "res0CellCount / pentagonCount against the spec's counts and sets.",
+        "Trusted: TLC, transcriptions + frozen tables, driver (the centre is fed back bit for bit).",
+        "DESIGN.md 3.3/3.5/3.6, 5/C03"),
 }
 
 PENDING_REASON = "check not built yet in this round (work in progress; see DESIGN.md section 10 for the order of work)"
